@@ -471,7 +471,7 @@ func (t *Tokenizer) tokenizeBuffer(buf []byte, last bool) {
 			t.mode = commentMap
 		case commentEnd:
 			t.mode = valueMap
-		case charErr:
+		case charErr, openParen, closeParen: // token functions are not supported by the tokenizer
 			t.byteError(off, t.mode, b)
 		}
 		if depth == 0 && 256 < len(t.mode) && t.mode[256] == 'v' {
